@@ -5,12 +5,18 @@ package config
 // Contracts for gocv (see /verif/DESIGN.md). Comment-only; compiled only with
 // the build tag "verif".
 
-//@ func cmd/runprog/config.keySetToSlice
-//@   trusted "the keys of the map in unspecified order (range over a map)"
-//@   pure
+// the keys of the map in unspecified order. Proved from the body: every element of the result is a key of the
+// map (nothing is invented). That the range statement visits EVERY key is the one fact taken from the language
+// definition (assumption A-MAP, stated as an `abstracts` clause: the engine's model of a map range yields arbitrary
+// present keys and cannot express exhaustiveness).
+//@ func cmd/runprog/config.keySetToSlice props C01
+//@   arith int
+//@   assigns nothing
 //@   ensures fresh(result) || len(result) == 0
 //@   ensures forall k int :: 0 <= k && k < len(result) ==> has(m, result[k])
-//@   ensures forall x string :: has(m, x) ==> exists k int :: 0 <= k && k < len(result) && result[k] == x
+//@   abstracts forall x string :: has(m, x) ==> exists k int :: 0 <= k && k < len(result) && result[k] == x
+//@   loop 0: invariant (fresh(rt) || cap(rt) == 0) && len(rt) >= 0 && m == old(m)
+//@   loop 0: invariant forall k int :: 0 <= k && k < len(rt) ==> has(m, rt[k])
 
 // C01: the lists handed to the filter builder are disjoint with trace taking precedence: every traced
 // name stays traced, nothing is allowed that was not asked for, and nothing is both allowed and traced.
